@@ -311,6 +311,8 @@ class Verdict:
                 print(f"KNOWN-FINDING: property={self.prop} {known[it['signature']].get('what', it['what'])} [{it['signature']}]")
                 continue
             unlisted += 1
+            if unlisted > 40:
+                continue          # the first 40 are written out; the count is reported below
             d = REPLAYS / self.prop
             d.mkdir(parents=True, exist_ok=True)
             h = hashlib.sha1(it["signature"].encode()).hexdigest()[:10]
@@ -321,7 +323,9 @@ class Verdict:
             print(f"VIOLATION property={self.prop} replay={path}")
             print(f"  signature: {it['signature']}")
             print(f"  what: {it['what']}  (x{it['count']})")
-        for dmsg in self.drift:
+        if unlisted > 40:
+            print(f"... and {unlisted - 40} further distinct violations of property={self.prop} (not listed)")
+        for dmsg in self.drift[:12]:
             print(f"MODEL-DRIFT: property={self.prop} {dmsg}")
         return (1 if unlisted else 0), unlisted, hit_known
 
